@@ -142,6 +142,25 @@ mod replay {
                     Err(_) => panic!("fee_sufficient panicked"),
                 }
             }
+            "tlv_from_bytes" => {
+                // C18/C06: decoding is total (records or an error) on every byte string
+                use crate::tlv::{FromBytes, SerializedTlvStream};
+                let bytes = hex::decode(inputs["hex"].as_str().unwrap()).unwrap();
+                let observed = std::panic::catch_unwind(|| {
+                    SerializedTlvStream::from_bytes(bytes.clone()).map(|_| ()).map_err(|e| e.to_string())
+                });
+                println!("REPLAY tlv_from_bytes hex={} observed={:?}", inputs["hex"], observed);
+                assert!(observed.is_ok(), "SerializedTlvStream::from_bytes panicked");
+            }
+            "tlv_try_from" => {
+                use crate::tlv::SerializedTlvStream;
+                let bytes = hex::decode(inputs["hex"].as_str().unwrap()).unwrap();
+                let observed = std::panic::catch_unwind(|| {
+                    SerializedTlvStream::try_from(bytes.clone()).map(|_| ()).map_err(|e| e.to_string())
+                });
+                println!("REPLAY tlv_try_from hex={} observed={:?}", inputs["hex"], observed);
+                assert!(observed.is_ok(), "SerializedTlvStream::try_from panicked");
+            }
             other => panic!("unknown replay target {:?}", other),
         }
     }
